@@ -143,6 +143,44 @@ func (t *trio) setup(r *kernel.Rand, nAssets int) bool {
 
 // openVirtual lets A propose a virtual channel to B with balances (a, b) per asset.
 func (t *trio) openVirtual(step int, a, b int64) (vi *virtInfo, err error) {
+	return t.openVirtualBy(step, a, b, false)
+}
+
+// openVirtualBy: with byB the virtual channel is proposed by B, so that A is
+// its participant 1 (the participant whose signature the hub's copy of the
+// channel expects on incoming updates).
+func (t *trio) openVirtualBy(step int, a, b int64, byB bool) (vi *virtInfo, err error) {
+	if byB {
+		ps := t.chBH[0].State()
+		alloc := channel.Allocation{Assets: ps.Assets, Backends: ps.Backends}
+		for range ps.Assets {
+			alloc.Balances = append(alloc.Balances, []channel.Bal{big.NewInt(b), big.NewInt(a)})
+		}
+		prop, err := client.NewVirtualChannelProposal(10, t.B.Acc.Addr, &alloc, []map[wallet.BackendID]wire.Address{t.B.Wire, t.A.Wire},
+			[]channel.ID{t.chBH[0].ID(), t.chAH[0].ID()}, [][]channel.Index{indexMapAlice, indexMapBob},
+			client.WithNonceFrom(kernel.NewRand(kernel.Derive(t.s.Sc.Seed, "vnonce", step))))
+		if err != nil {
+			return nil, err
+		}
+		ctx, cancel := t.B.Ctx()
+		defer cancel()
+		ch, err := t.B.Client.ProposeChannel(ctx, prop)
+		t.s.Event("B", "driver:virtual-open", fmt.Sprintf("err=%v", err))
+		if err != nil || ch == nil {
+			return nil, err
+		}
+		var other *client.Channel
+		for i := 0; i < 5000 && other == nil; i++ {
+			if other = t.A.Chan(ch.ID()); other == nil {
+				time.Sleep(100 * time.Microsecond)
+			}
+		}
+		if other == nil {
+			return nil, fmt.Errorf("A never obtained the virtual channel")
+		}
+		t.virt = append(t.virt, virtInfo{id: ch.ID(), a: other, b: ch})
+		return &t.virt[len(t.virt)-1], nil
+	}
 	ps := t.chAH[0].State()
 	alloc := channel.Allocation{Assets: ps.Assets, Backends: ps.Backends}
 	for range ps.Assets {
